@@ -157,9 +157,14 @@ def addr_gen(rng, tier):
 
 def addr_oracle(line, res):
     f = gens.fields(line)
+    r = gens.fields(res)
+    if f["fn"] == "net":
+        want = "unix" if gens.unhx(f["a"]).startswith(b"@") else "tcp"
+        if r.get("r") != want:
+            return "network for dial address %r is %s, expected %s" % (gens.unhx(f["a"]), r.get("r"), want)
+        return None
     if "exp" not in f:
         return None
-    r = gens.fields(res)
     if r.get("r") != f["exp"]:
         got = gens.unhx(r.get("r", "-")) if "r" in r else res
         what = {"trim": "bracket trim changed the host text", "rmport": "server name is not the URL host",
